@@ -71,6 +71,9 @@ fn adversarial<const D: usize>(id: &str, rng: &mut Rng, out: &mut Out) {
     let ps = gens::point_set(rng, D, np);
     let Some(mut w): Option<World<D>> = hist::start_built::<D>(&ps.pts, 1, rng) else { return };
     out.case(id, "adv", &format!("D={D}"));
+    // a hull and an adjacency index taken BEFORE the mutations below: both are stale afterwards
+    let hull0 = delaunay::geometry::algorithms::convex_hull::ConvexHull::<FastKernel<f64>, tri::VData, tri::CData, D>::from_triangulation(w.dt.as_triangulation()).ok();
+    let index0 = w.dt.as_triangulation().build_adjacency_index().ok();
     // stale keys: take keys, then remove/replace them
     let old_cells: Vec<_> = w.dt.cells().map(|(k, _)| k).collect();
     let old_verts: Vec<_> = w.dt.vertices().map(|(k, _)| k).collect();
@@ -107,6 +110,22 @@ fn adversarial<const D: usize>(id: &str, rng: &mut Rng, out: &mut Out) {
         let _ = t.cell_vertices(stale_c); let _ = t.vertex_coords(stale_v);
         Ok::<(), ()>(())
     });
+    if let Some(h) = &hull0 {
+        let t = w.dt.as_triangulation();
+        let q = Point::new([7.5; D]);
+        adv!("hull_stale_is_point_outside", h.is_point_outside(&q, t));
+        adv!("hull_stale_find_visible_facets", h.find_visible_facets(&q, t));
+        adv!("hull_stale_find_nearest_visible_facet", h.find_nearest_visible_facet(&q, t));
+        adv!("hull_stale_validate", h.validate(t));
+        if let Some(fh) = h.get_facet(0).copied() { adv!("hull_stale_is_facet_visible_from_point", h.is_facet_visible_from_point(&fh, &q, t)); }
+    }
+    // non-finite coordinates while the triangulation is still bootstrapping (fewer than D+1 vertices)
+    for (nm, bad) in [("nan", f64::NAN), ("inf", f64::INFINITY)] {
+        let mut e = hist::start_empty::<D>(1);
+        let mut c = [0.25f64; D]; c[0] = bad;
+        let (r, s2) = timed(|| e.dt.insert(Vertex::new_with_uuid(Point::new(c), rng.uuid(), None)));
+        out.obs(&format!("nonfinite_insert_bootstrap_{nm}"), &cls(&r, s2));
+    }
     adv!("locate_stale_hint", locate_with_stats(w.dt.tds(), &FastKernel::<f64>::new(), &Point::new([0.5; D]), Some(stale_c)));
     // extreme magnitudes
     let big = 2f64.powi(500); let tiny = 2f64.powi(-500);
@@ -140,6 +159,19 @@ fn adversarial<const D: usize>(id: &str, rng: &mut Rng, out: &mut Out) {
     // the triangulation is still usable
     out.obs("still_valid", &tri::err_kind(&format!("{:?}", w.dt.as_triangulation().is_valid().map(|_| "ok"))));
     out.end();
+    // a stale AdjacencyIndex is a handle like any other: its own case, so that it is judged alone
+    if let Some(ix) = &index0 {
+        out.case(&format!("{id}_ix"), "adv", &format!("D={D} what=stale_adjacency_index"));
+        let (r, s2) = timed(|| {
+            let t = w.dt.as_triangulation();
+            let _ = t.edges_with_index(ix).count();
+            let _ = t.number_of_edges_with_index(ix);
+            if let Some(vk) = w.dt.vertices().map(|(k, _)| k).last() { let _ = t.adjacent_cells_with_index(ix, vk).count(); let _ = t.incident_edges_with_index(ix, vk).count(); }
+            Ok::<(), ()>(())
+        });
+        out.obs("stale_index_queries", &cls(&r, s2));
+        out.end();
+    }
 }
 
 
